@@ -21,6 +21,7 @@ def _repo_rev():
 def report(prop, tier, seed, mod, results, wall, write=True):
     meta = getattr(mod, 'META', {})
     tot = {'unsat': 0, 'sat': 0, 'unknown': 0, 'trivial_closed_by_simplifier': 0, 'solver_time_s': 0.0}
+    cross = {'agree': 0, 'unknown': 0, 'disagree': 0, 'error': 0}
     paths = obligations = nontrivial = vac = feas = safety = 0
     violations, known, inconclusive, samples, notes = [], [], [], [], []
     percase = []
@@ -28,6 +29,8 @@ def report(prop, tier, seed, mod, results, wall, write=True):
         st = r.get('stats', {})
         for k in tot:
             tot[k] += st.get(k, 0)
+        for k, v_ in (st.get('cross') or {}).items():
+            cross[k] = cross.get(k, 0) + v_
         paths += r.get('paths', 0)
         obligations += r.get('obligations', 0)
         nontrivial += r.get('symbolic_goals', 0) if meta.get('count') == 'symbolic' else r.get('nontrivial', 0)
@@ -114,6 +117,7 @@ def report(prop, tier, seed, mod, results, wall, write=True):
                             'branch_feasibility': feas,
                             'closed_by_simplifier': tot['trivial_closed_by_simplifier']},
                 'solver_time_s': tot['solver_time_s'],
+                'cross_solver_cvc5': {**cross, 'what': 'z3 unsat verdicts re-decided by cvc5 (sampled per case; unknown = cvc5 timeout at 4 s)'},
                 'vacuity_witnesses': vac,
                 'known_findings_hit': sorted({k.get('known', {}).get('key', '?') for _, k in known}),
                 'inconclusive': [f'{c}: {str(m)[:300]}' for c, m in inconclusive][:20],
@@ -132,5 +136,7 @@ def report(prop, tier, seed, mod, results, wall, write=True):
     print(f'{prop} tier={tier}: cases={len(results)} paths={paths} obligations={obligations} '
           f'queries={queries} (unsat={tot["unsat"]} sat={tot["sat"]} unknown={tot["unknown"]}) '
           f'solver={tot["solver_time_s"]}s wall={round(wall, 1)}s known={len(seen_known)} '
-          f'violations={len(violations)} inconclusive={len(inconclusive)} -> exit {code}')
+          f'violations={len(violations)} inconclusive={len(inconclusive)}'
+          + (f' cvc5[agree={cross["agree"]} unknown={cross["unknown"]} disagree={cross["disagree"]} error={cross["error"]}]' if sum(cross.values()) else '')
+          + f' -> exit {code}')
     return code
